@@ -58,6 +58,11 @@ def worker(a):
         w1 = L.TWO_PI if L.W[modname] else 1.0
         Bs, B0s = w1 * s * B, w1 * s * B0
         tag = "xfab.%s B0=%s B=%s s=%.4g" % (modname, rec["B0"], rec["B"], s)
+        def G(f, *args):
+            r, m_ = L.twice(f, *args)
+            if m_:
+                out.append(m_ + " (%s)" % tag)
+            return r
         try:
             n += 2
             if not L.close(mod.form_b_mat(cell0), B0s):
@@ -70,22 +75,22 @@ def worker(a):
             for step in rec["path"]:
                 n += 1
                 if step == "b_to_epsilon":
-                    e = np.asarray(mod.b_to_epsilon(cur, cell0), dtype=float)
+                    e = np.asarray(G(mod.b_to_epsilon, cur, cell0), dtype=float)
                     if not L.close(e, np.array(eps), scale=1.0):
                         out.append("b_to_epsilon gives %s, sym(B0.inv(B)) - I is %s (%s)" % (e.tolist(), eps, tag))
                     cur = eps
                 elif step == "epsilon_to_b":
-                    b = np.asarray(mod.epsilon_to_b(cur, cell0), dtype=float)
+                    b = np.asarray(G(mod.epsilon_to_b, cur, cell0), dtype=float)
                     if not L.close(b, Bs):
                         out.append("epsilon_to_b(b_to_epsilon(B)) differs from B by %.3g relative (%s)" %
                                    (float(np.abs(b - Bs).max() / np.abs(Bs).max()), tag))
                     cur = Bs
                 elif step == "b_to_epsilon_old":
-                    cur = list(mod.b_to_epsilon_old(cur, cell0))
+                    cur = list(G(mod.b_to_epsilon_old, cur, cell0))
                     if np.allclose(B, B0) and not L.close(cur, np.zeros(6), scale=1.0):
                         out.append("b_to_epsilon_old of the unstrained B is not zero (%s)" % tag)
                 elif step == "epsilon_to_b_old":
-                    b = np.asarray(mod.epsilon_to_b_old(cur, cell0), dtype=float)
+                    b = np.asarray(G(mod.epsilon_to_b_old, cur, cell0), dtype=float)
                     if not L.close(b, Bs):
                         out.append("epsilon_to_b_old(b_to_epsilon_old(B)) differs from B by %.3g relative (%s)" %
                                    (float(np.abs(b - Bs).max() / np.abs(Bs).max()), tag))
@@ -93,7 +98,7 @@ def worker(a):
                 elif step == "make_ubi":
                     cur = np.linalg.inv(Uex.dot(Bs)) * w1
                 elif step == "ubi_to_u_and_eps":
-                    U, e = mod.ubi_to_u_and_eps(cur, cell0)
+                    U, e = G(mod.ubi_to_u_and_eps, cur, cell0)
                     e = np.asarray(e, dtype=float)
                     if not L.close(U, Uex, scale=1.0):
                         out.append("ubi_to_u_and_eps: U differs from the rotation the UBI was built from (%s)" % tag)
